@@ -46,8 +46,15 @@ def impl(c):
     from simfile.notes import NoteData
     t = text_of(c)
     nd = NoteData(t)
+    # iteration history: an abandoned partial pass first, then two complete passes (the second while a third is open)
+    started = iter(nd)
+    first = next(started, None)
     notes = list(nd)
     obs = [G.note_obs(n) for n in notes]
+    open_it = iter(nd)
+    next(open_it, None)
+    again = [G.note_obs(n) for n in nd]
+    stable = again == obs and (first is None or (obs and G.note_obs(first) == obs[0])) and [G.note_obs(n) for n in started] == obs[1:]
     cmp = []
     for i, j in pairs(c, len(notes)):
         a, b = notes[i], notes[j]
@@ -58,7 +65,7 @@ def impl(c):
         a = notes[0]
         b = Note(beat=a.beat, column=a.column, note_type=NoteType.MINE if a.note_type != NoteType.MINE else NoteType.TAP, player=a.player, keysound_index=99)
         cmp.append([0, -1, a < b, a <= b, a > b, a >= b])
-    return {"notes": obs, "columns": nd.columns, "str_same": str(nd) == t, "cmp": cmp}
+    return {"notes": obs, "columns": nd.columns, "str_same": str(nd) == t, "cmp": cmp, "stable": bool(stable)}
 
 
 def requests(c):
@@ -82,7 +89,7 @@ def model(c, ans):
         cmp.append([i, j, ka < kb, ka <= kb, ka > kb, ka >= kb])
     if obs:
         cmp.append([0, -1, False, True, False, True])
-    return {"notes": obs, "columns": cols, "str_same": True, "cmp": cmp}
+    return {"notes": obs, "columns": cols, "str_same": True, "cmp": cmp, "stable": True}
 
 
 def oracle(c, o):
@@ -102,6 +109,8 @@ def oracle(c, o):
         return "notes are not in strictly increasing (player, beat, column) order"
     if not o["str_same"]:
         return "str(NoteData(text)) != text"
+    if o.get("stable") is False:
+        return "iterating the same NoteData again (after an abandoned partial pass / while another pass is open) gave different notes"
     for i, j, lt, le, gt, ge in o["cmp"]:
         ka = ks[i]
         kb = ks[j] if j >= 0 else ks[0]
